@@ -1768,3 +1768,124 @@ def handler_lookup_owner(check: Check, repo: Repo, rule: str = "HANDLER-LOOKUP")
                 and unparse(c.func.value) != "self" and not unparse(c.func.value).startswith("super")]
         check.ob(rule, fn, f"{q}: asks the visitor(s) it drives through get_enter_leave_for_kind", bool(asks),
                  f"{len(asks)} call(s): " + ", ".join(unparse(a)[:50] for a in asks) if asks else "no call of <visitor>.get_enter_leave_for_kind(...)")
+
+
+def separator_table(check: Check, repo: Repo, rule: str = "SEPARATOR-TABLE") -> None:
+    from sa.tables import EnumMember, Rec
+
+    check.rule(
+        rule,
+        "strip_ignored_characters: the decision to put a space in front of a token and the flag carried to the next "
+        "token, folded for every token kind the lexer can deliver x {previous token was a non-punctuator or not} (the "
+        "loop body is evaluated with the token bound to an abstract record, nothing is lexed): a space is written "
+        "exactly when the previous token is a non-punctuator (Name, Int, Float, String, BlockString - the spec's lexical "
+        "tokens that are not Punctuators) and the current one is a non-punctuator or `...`; the flag becomes 'current is "
+        "a non-punctuator'. Without the space `\\\"\\\" \\\"\\\"\\\"x\\\"\\\"\\\"` collapses into one block string and `1 ...` into an invalid number",
+    )
+    mod = repo.mod("utilities.strip_ignored_characters")
+    fn = repo.func("utilities.strip_ignored_characters", "strip_ignored_characters")
+    loops = [s for s in fn.body if isinstance(s, ast.While)]
+    if len(loops) != 1:
+        raise AnalysisError("strip_ignored_characters: token loop not found")
+    body = loops[0].body
+    sep = next((s for s in body if isinstance(s, ast.If) and any(
+        isinstance(x, ast.AugAssign) and isinstance(x.value, ast.Constant) and x.value.value == " " for x in s.body)), None)
+    if sep is None:
+        check.ob(rule, loops[0], "strip_ignored_characters: separator decision", False, "no `if ...: <out> += \" \"` in the token loop: tokens are glued together")
+        return
+    prefix = body[: body.index(sep)]
+    later_assigned = {t.id: s for s in body[body.index(sep) + 1:] if isinstance(s, ast.Assign) for t in s.targets if isinstance(t, ast.Name)}
+    flags = [n.id for n in ast.walk(sep.test) if isinstance(n, ast.Name) and n.id in later_assigned]
+    for s in prefix:  # a flag may be read through a local computed in the prefix
+        if isinstance(s, ast.Assign):
+            flags += [n.id for n in ast.walk(s.value) if isinstance(n, ast.Name) and n.id in later_assigned]
+    flags = sorted(set(flags))
+    if len(flags) != 1:
+        raise AnalysisError(f"strip_ignored_characters: carried flag not identified ({flags})")
+    flag = flags[0]
+    tk = repo.mod("language.token_kind")
+    kinds = [t.id for c in tk.classes() if c.name == "TokenKind" for s in c.body if isinstance(s, ast.Assign) for t in s.targets if isinstance(t, ast.Name)]
+    delivered = [k for k in kinds if k not in ("SOF", "EOF", "COMMENT")]
+    if len(delivered) < 15:
+        raise AnalysisError("TokenKind members not found")
+    nonpunct = {"NAME", "INT", "FLOAT", "STRING", "BLOCK_STRING"}
+    bad = []
+    for k in delivered:
+        for was in (False, True):
+            tok = Rec(kind=EnumMember("TokenKind", k, None), start=0, end=1, value="", prev=None)
+            ev = Evaluator(repo, mod, {"current_token": tok, "lexer": Rec(token=tok), flag: was, "body": "x", "stripped_body": ""})
+            try:
+                ev._exec_block(prefix)
+                space = bool(ev.eval(sep.test))
+                new_flag = bool(ev.eval(later_assigned[flag].value))
+            except NotStatic as ex:
+                raise AnalysisError(f"strip_ignored_characters: separator decision is no longer foldable: {ex}") from ex
+            want_space = was and (k in nonpunct or k == "SPREAD")
+            want_flag = k in nonpunct
+            if space != want_space:
+                bad.append(f"{k} after a {'non-' if was else ''}punctuator: space={space}, expected {want_space}")
+            if new_flag != want_flag:
+                bad.append(f"{k}: carried flag {new_flag}, expected {want_flag}")
+    check.ob(rule, sep, f"strip_ignored_characters: {len(delivered)} token kinds x 2 flags", not bad,
+             f"all {2 * len(delivered)} cells as specified" if not bad else "; ".join(bad[:4]))
+
+
+def _facts_with_locals(facts) -> set[tuple[str, bool]]:
+    """norm_facts plus every condition with its locals replaced by the expressions they are known to equal."""
+    import copy
+
+    facts = list(facts)
+    eqs = {f.name: f.expr for f in facts if f.kind == "eq" and f.name}
+    out = norm_facts(facts)
+
+    class Sub(ast.NodeTransformer):
+        def visit_Name(self, n):  # noqa: N802
+            return copy.deepcopy(eqs[n.id]) if n.id in eqs and isinstance(n.ctx, ast.Load) else n
+
+    from sa.guards import Fact
+
+    for f in facts:
+        if f.kind == "cond" and any(isinstance(x, ast.Name) and x.id in eqs for x in ast.walk(f.expr)):
+            e = ast.fix_missing_locations(Sub().visit(copy.deepcopy(f.expr)))
+            nf = _norm_fact(Fact("cond", e, f.pol))
+            if nf:
+                out.add(nf)
+    return out
+
+
+BLOCK_STEPS = {
+    # step -> alternatives; each alternative is a set of (normalised fact text, polarity) that must all hold
+    4: [{("body[position] == '\\\\'", True), ("body[position + 1:position + 4] == '\"\"\"'", True)}],
+    2: [{("body[position] == '\\r'", True), ("body[position + 1:position + 2] == '\\n'", True)},
+        {("is_supplementary_code_point(body, position)", True)}],
+}
+
+
+def block_string_steps(check: Check, repo: Repo, rule: str = "BLOCK-STEPS") -> None:
+    check.rule(
+        rule,
+        "Lexer.read_block_string: every step of more than one character is one of the three multi-character units a "
+        "block string has - the escaped triple quote \\\\\"\"\" (4, under the facts that the character is a backslash and the "
+        "next three are quotes), CR LF (2) and a surrogate pair (2); the must-facts at the `position += k` statement "
+        "(locals expanded) entail the unit. In particular a backslash escapes nothing else: stepping over `\\\\\\\\` as a "
+        "pair makes `\\\\\\\\\"\"\"` end the string one character early",
+    )
+    fn = repo.func("language.lexer", "Lexer.read_block_string")
+    cfg = CFG(fn)
+    ff = FactFlow(cfg)
+    steps = [s for s in walk_body(fn) if isinstance(s, ast.AugAssign) and isinstance(s.op, ast.Add) and unparse(s.target) == "position"
+             and isinstance(s.value, ast.Constant) and isinstance(s.value.value, int)]
+    if len(steps) < 4:
+        raise AnalysisError("read_block_string: position steps not found")
+    for s in steps:
+        k = s.value.value
+        if k <= 1:
+            continue
+        facts = _facts_with_locals(ff.facts_at(s))
+        # `char` stands for body[position]
+        facts |= {(t.replace("char ", "body[position] ", 1) if t.startswith("char ") else t, p) for t, p in facts}
+        alts = BLOCK_STEPS.get(k, [])
+        ok = any(alt <= facts for alt in alts)
+        check.ob(rule, s, f"read_block_string: position += {k} at line {s.lineno}", ok,
+                 "the facts here entail a unit of that length" if ok else
+                 f"no {k}-character unit is established here (known: {sorted(t for t, p in facts if p and 'position' in t)[:4]})")
